@@ -42,6 +42,14 @@ def run_program(prog, flavours=("sync",), model=None, link_to=False, compare_tre
                     ok = False; tree_reason = r
                     if stop_on_first: break
                 continue
+            if op["op"] == "refcheck":
+                r = _refcheck(op, impls[0], cache, times)
+                steps.append((op, None, None, r, None))
+                m.cmd("list")          # keep the model's op counter aligned with the program index
+                if r is not None:
+                    ok = False
+                    if stop_on_first: break
+                continue
             ip = impls[op.get("bin", 0)]
             pre = _observe_pre(op, cache, ext)
             r = ip.op({k: v for k, v in op.items() if k != "bin"})
@@ -129,3 +137,32 @@ def _observe_post(op, r, pre, cache, ext):
     except Exception as e:
         return {"observe_error": repr(e)}
     return None
+
+def _refcheck(op, ip, cache, times):
+    """C17 direct oracle: the naive reference reader over the bucket bytes on disk must agree with the library's lookup"""
+    import json
+    from . import ref, oracle
+    key = bytes.fromhex(op["key"])
+    try:
+        with open(os.path.join(cache, *ref.bucket_rel(key)), "rb") as f:
+            data = f.read()
+    except FileNotFoundError:
+        data = b""
+    r = ip.op({"op": "metadata", "fl": "sync", "key": op["key"]})
+    ci = O.canon_impl({"op": "metadata"}, r)
+    try:
+        obj = ref.naive_find(data, key.decode())
+        if obj is None:
+            exp = ("ok", "meta", None)
+        else:
+            hs = oracle.parse_sri(obj["integrity"])
+            if hs is None:
+                return None
+            raw = obj.get("raw_metadata")
+            exp = ("ok", "meta", {"key": op["key"], "sri": oracle.sri_text(hs), "time": obj["time"], "size": obj["size"],
+                   "meta": json.dumps(obj["metadata"], separators=(",", ":"), ensure_ascii=False, sort_keys=True).encode().hex(),
+                   "raw": None if raw is None else bytes(raw).hex(), "modelled": True})
+    except Exception:
+        return None
+    d = O.results_equal(exp, ci, {})
+    return None if d is None else f"reference reader disagrees with the library's lookup: {d}; reference {str(exp)[:200]} library {str(ci)[:200]}"
